@@ -74,3 +74,10 @@ claim("C10", "property-based testing: exact delivery accounting on instrumented 
       "negative Gaussian draws; 200 / 2000 delay parameter sets x 20k / 80k py_get_delay draws vs scipy.stats (KS); "
       "500 / 5000 networks for zero-delay and delay-unaware simulators vs the master equation of the net network.",
       _TB, "DESIGN.md section 4 C10")
+
+claim("C09", "property-based testing: generated rule sets x six simulation modes, rule equations evaluated on every reported row (Hypothesis)",
+      "12k / 150k generated (model, rule set, grid, mode, seed) cases: chained repeated assignments (species and "
+      "parameters) must hold on every row in declaration order; rates must see rule-updated values; scheduled rules, "
+      "dt counters and ODE rules are checked row by row for firing time and step count, with and without reaction "
+      "events, in SSA, safe, volume, delay and lineage single-cell simulation; deterministic mode for the repeated "
+      "rules.", _TB, "DESIGN.md section 4 C09")
